@@ -1,0 +1,134 @@
+//go:build verif
+
+// Verification hooks (build tag "verif", add-only): a read-only dump of the internal state
+// of a RawNode for the correspondence check in /verif. Nothing here is compiled without
+// the tag and nothing here mutates raft state.
+
+package raft
+
+import (
+	"reflect"
+
+	pb "go.etcd.io/raft/v3/raftpb"
+	"go.etcd.io/raft/v3/tracker"
+)
+
+// VerifProgress is a flat copy of one tracker.Progress including its unexported parts.
+type VerifProgress struct {
+	Match, Next, SentCommit, PendingSnapshot uint64
+	State                                    tracker.StateType
+	RecentActive, Paused, IsLearner          bool
+	InflCount                                int
+	InflBytes                                uint64
+	InflFull                                 bool
+	InflWindow                               [][2]uint64 // (index, bytes), oldest first
+}
+
+// VerifRead is one queued ReadIndex request.
+type VerifRead struct {
+	Req   *pb.Message
+	Index uint64
+}
+
+// VerifDump is the internal state of a RawNode.
+type VerifDump struct {
+	ID, Term, Vote, Lead, LeadTransferee, PendingConfIndex, UncommittedSize uint64
+	State                                                               StateType
+	IsLearner                                                           bool
+	ElectionElapsed, HeartbeatElapsed, RandomizedElectionTimeout         int
+
+	Committed, Applying, Applied, ApplyingEntsSize, MaxApplyingEntsSize uint64
+	ApplyingEntsPaused                                                  bool
+	UnstableOffset, UnstableOffsetInProgress                            uint64
+	UnstableEntries                                                     []*pb.Entry
+	UnstableSnapshot                                                    *pb.Snapshot
+	UnstableSnapshotInProgress                                          bool
+
+	Config   tracker.Config
+	Progress map[uint64]VerifProgress
+	Votes    map[uint64]bool
+
+	ROAcks        map[uint64]uint64
+	ROUnconfirmed []VerifRead
+	ROConfirmed   uint64
+
+	Msgs, MsgsAfterAppend, StepsOnAdvance, PendingReadIndex []*pb.Message
+	ReadStates                                              []ReadState
+	PrevHardState                                           *pb.HardState
+	PrevSoftState                                           SoftState
+}
+
+func verifProgress(pr *tracker.Progress) VerifProgress {
+	v := reflect.ValueOf(pr).Elem()
+	out := VerifProgress{
+		Match: pr.Match, Next: pr.Next, PendingSnapshot: pr.PendingSnapshot, State: pr.State,
+		RecentActive: pr.RecentActive, Paused: pr.MsgAppFlowPaused, IsLearner: pr.IsLearner,
+	}
+	if f := v.FieldByName("sentCommit"); f.IsValid() {
+		out.SentCommit = f.Uint()
+	}
+	if pr.Inflights != nil {
+		out.InflCount = pr.Inflights.Count()
+		out.InflFull = pr.Inflights.Full()
+		in := reflect.ValueOf(pr.Inflights).Elem()
+		if f := in.FieldByName("bytes"); f.IsValid() {
+			out.InflBytes = f.Uint()
+		}
+		start, size, buf := in.FieldByName("start"), in.FieldByName("size"), in.FieldByName("buffer")
+		if start.IsValid() && size.IsValid() && buf.IsValid() {
+			idx, sz := int(start.Int()), int(size.Int())
+			for i := 0; i < out.InflCount && idx < buf.Len(); i++ {
+				e := buf.Index(idx)
+				out.InflWindow = append(out.InflWindow, [2]uint64{e.Field(0).Uint(), e.Field(1).Uint()})
+				if idx++; idx >= sz {
+					idx -= sz
+				}
+			}
+		}
+	}
+	return out
+}
+
+// VerifState returns a copy of the node's internal state.
+func (rn *RawNode) VerifState() VerifDump {
+	r := rn.raft
+	l := r.raftLog
+	d := VerifDump{
+		ID: r.id, Term: r.Term, Vote: r.Vote, Lead: r.lead, LeadTransferee: r.leadTransferee,
+		PendingConfIndex: r.pendingConfIndex, UncommittedSize: uint64(r.uncommittedSize),
+		State: r.state, IsLearner: r.isLearner,
+		ElectionElapsed: r.electionElapsed, HeartbeatElapsed: r.heartbeatElapsed,
+		RandomizedElectionTimeout: r.randomizedElectionTimeout,
+		Committed:                 l.committed, Applying: l.applying, Applied: l.applied,
+		ApplyingEntsSize: uint64(l.applyingEntsSize), MaxApplyingEntsSize: uint64(l.maxApplyingEntsSize),
+		ApplyingEntsPaused: l.applyingEntsPaused,
+		UnstableOffset:     l.unstable.offset, UnstableOffsetInProgress: l.unstable.offsetInProgress,
+		UnstableEntries: l.unstable.entries, UnstableSnapshot: l.unstable.snapshot,
+		UnstableSnapshotInProgress: l.unstable.snapshotInProgress,
+		Config:                     r.trk.Config.Clone(),
+		Progress:                   map[uint64]VerifProgress{},
+		Votes:                      map[uint64]bool{},
+		ROAcks:                     map[uint64]uint64{},
+		ROConfirmed:                r.readOnly.confirmedReads,
+		Msgs:                       r.msgs, MsgsAfterAppend: r.msgsAfterAppend, StepsOnAdvance: rn.stepsOnAdvance,
+		PendingReadIndex: r.pendingReadIndexMessages, ReadStates: r.readStates,
+		PrevHardState: rn.prevHardSt,
+	}
+	d.Config.AutoLeave = r.trk.Config.AutoLeave
+	if rn.prevSoftSt != nil {
+		d.PrevSoftState = *rn.prevSoftSt
+	}
+	for id, pr := range r.trk.Progress {
+		d.Progress[id] = verifProgress(pr)
+	}
+	for id, v := range r.trk.Votes {
+		d.Votes[id] = v
+	}
+	for id, v := range r.readOnly.acks {
+		d.ROAcks[id] = v
+	}
+	for _, rr := range r.readOnly.unconfirmedReads {
+		d.ROUnconfirmed = append(d.ROUnconfirmed, VerifRead{Req: rr.req, Index: rr.index})
+	}
+	return d
+}
